@@ -153,3 +153,99 @@ Proof.
   - vm_compute. repeat split; reflexivity.
 Qed.
 Print Assumptions C11_converges_nonvacuous.
+
+(* ------------------------------------------------------------------ pool reservations *)
+(* Under the same hypotheses, if the registry starts with nothing reserved and the active node never has two live
+   sessions claiming the same (family, pool, address-or-prefix) — at any point of the history — then the
+   (repaired) standby's pools hold a reservation (family, pool, key) -> session id exactly when a live session's
+   checkpoint reserves it: nothing missing, nothing left over, every owner right. *)
+Theorem C11_pools_exact :
+  forall g0 cap g evs d,
+  g <> 0%N -> (forall e, In e evs -> s_srg (fst e) = g) -> (N.of_nat (length evs) < n64)%N ->
+  fresh g0 ->
+  (forall i, (i <= length evs)%nat -> uniq g0 (live_run (firstn i evs))) ->
+  let reqs := snd (sender_run [(g, (0%N, new_ring cap))] evs) in
+  delivery reqs 0 d (length reqs) ->
+  forall x sid, lease_at (rc_reg (recv_run repaired (mkrecv [] [] g0) d)) x = Some sid <->
+                In (x, sid) (expected_leases g0 (live_run evs)).
+Proof. exact pools_exact. Qed.
+Print Assumptions C11_pools_exact.
+
+Lemma ex_reg_fresh : fresh ex_reg.
+Proof. apply fresh_mk; simpl; intros np H; repeat (destruct H as [<-|H]; [reflexivity|]); destruct H. Qed.
+Print Assumptions ex_reg_fresh.
+
+Ltac ex_uniq :=
+  intros i Hi; simpl in Hi;
+  do 6 (try (destruct i as [|i]; [vm_compute; repeat constructor; simpl; intuition discriminate|try lia])).
+Ltac ex_inorder := repeat (eapply dl_next; [reflexivity|]); apply dl_nil.
+
+(* today: an update that changes the address leaves the old one reserved on the standby *)
+Theorem C11_pools_exact_today_refuted :
+  exists g0 cap g evs d x sid,
+  g <> 0%N /\ (forall e, In e evs -> s_srg (fst e) = g) /\ fresh g0 /\
+  (forall i, (i <= length evs)%nat -> uniq g0 (live_run (firstn i evs))) /\
+  delivery (snd (sender_run [(g, (0%N, new_ring cap))] evs)) 0 d (length (snd (sender_run [(g, (0%N, new_ring cap))] evs))) /\
+  lease_at (rc_reg (recv_run defective (mkrecv [] [] g0) d)) x = Some sid /\
+  ~ In (x, sid) (expected_leases g0 (live_run evs)).
+Proof.
+  exists ex_reg, 8%Z, 1%N, [(ex_sess 1 (Some ex_a) 1, false); (ex_sess 1 (Some ex_b) 1, false)],
+         [ex_q 1 false (ex_sess 1 (Some ex_a) 1); ex_q 2 false (ex_sess 1 (Some ex_b) 1)], (4, 1, ex_a)%N, 1%N.
+  split; [discriminate|]. split; [intros e [<-|[<-|[]]]; reflexivity|]. split; [exact ex_reg_fresh|].
+  split; [ex_uniq|]. split; [ex_inorder|]. split; [vm_compute; reflexivity|].
+  vm_compute. intuition discriminate.
+Qed.
+Print Assumptions C11_pools_exact_today_refuted.
+
+(* today: releasing a session frees the same address held by a live session in another (VRF) pool *)
+Theorem C11_release_ignores_pool_today_refuted :
+  exists g0 cap g evs d x sid,
+  g <> 0%N /\ (forall e, In e evs -> s_srg (fst e) = g) /\ fresh g0 /\
+  (forall i, (i <= length evs)%nat -> uniq g0 (live_run (firstn i evs))) /\
+  delivery (snd (sender_run [(g, (0%N, new_ring cap))] evs)) 0 d (length (snd (sender_run [(g, (0%N, new_ring cap))] evs))) /\
+  In (x, sid) (expected_leases g0 (live_run evs)) /\
+  lease_at (rc_reg (recv_run defective (mkrecv [] [] g0) d)) x = None.
+Proof.
+  exists ex_reg, 8%Z, 1%N,
+         [(ex_sess 1 (Some ex_a) 1, false); (ex_sess 2 (Some ex_a) 3, false); (ex_sess 1 (Some ex_a) 1, true)],
+         [ex_q 1 false (ex_sess 1 (Some ex_a) 1); ex_q 2 false (ex_sess 2 (Some ex_a) 3); ex_q 3 true (ex_sess 1 (Some ex_a) 1)],
+         (4, 3, ex_a)%N, 2%N.
+  split; [discriminate|]. split; [intros e [<-|[<-|[<-|[]]]]; reflexivity|]. split; [exact ex_reg_fresh|].
+  split; [ex_uniq|]. split; [ex_inorder|]. split; vm_compute; auto.
+Qed.
+Print Assumptions C11_release_ignores_pool_today_refuted.
+
+(* today: a bulk replay of the backlog after everything was delivered brings a released session back *)
+Theorem C11_bulk_replay_today_refuted :
+  exists ops,
+  let y := sys_run defective (sys_init 8 [1%N] ex_reg) ops in
+  next_of y 1 = length (y_sent y) /\ y_panics y = O /\ y_live y = [] /\
+  rc_store (y_recv y) <> expected_store (y_live y) /\ leases_of (rc_reg (y_recv y)) <> [].
+Proof.
+  exists [OEvent (ex_sess 1 (Some ex_a) 1) false; OEvent (ex_sess 1 (Some ex_a) 1) true; ODeliver 1; ODeliver 1; OBulk 1].
+  vm_compute. repeat split; try reflexivity; discriminate.
+Qed.
+Print Assumptions C11_bulk_replay_today_refuted.
+
+Example C11_pools_exact_nonvacuous :
+  (* two sessions, one gains an IANA address and changes its IPv4 address, the other is released; duplicates in the
+     delivery; the hypotheses of C11_pools_exact hold and the standby ends with exactly session 1's two reservations *)
+  let s1 := ex_sess 1 (Some ex_a) 1 in
+  let s1' := mksession KIPoE 1 1 2199023255553 100 7 1 (Some ex_b) 0 (Some 42540766411282592856903984951653826563%N) 1 None 0 0 None None 0 3600 in
+  let s2 := ex_sess 2 (Some ex_b) 1 in
+  let evs := [(s1, false); (s2, false); (s2, true); (s1', false)] in
+  let d := [ex_q 1 false s1; ex_q 1 false s1; ex_q 2 false s2; ex_q 3 true s2; ex_q 2 false s2; ex_q 4 false s1'; ex_q 3 true s2] in
+  fresh ex_reg /\ (forall i, (i <= length evs)%nat -> uniq ex_reg (live_run (firstn i evs))) /\
+  delivery (snd (sender_run [(1%N, (0%N, new_ring 2))] evs)) 0 d 4 /\
+  expected_leases ex_reg (live_run evs) =
+    [((4, 1, ex_b)%N, 1%N); ((6, 1, 42540766411282592856903984951653826563)%N, 1%N)] /\
+  leases_of (rc_reg (recv_run repaired (mkrecv [] [] ex_reg) d)) =
+    [((4, 1, ex_b)%N, 1%N); ((6, 1, 42540766411282592856903984951653826563)%N, 1%N)].
+Proof.
+  cbv zeta. split; [exact ex_reg_fresh|]. split; [ex_uniq|]. split.
+  - eapply dl_next; [vm_compute; reflexivity|]. eapply (dl_dup _ 1 0); [lia|vm_compute; reflexivity|].
+    eapply dl_next; [vm_compute; reflexivity|]. eapply dl_next; [vm_compute; reflexivity|]. eapply (dl_dup _ 3 1); [lia|vm_compute; reflexivity|].
+    eapply dl_next; [vm_compute; reflexivity|]. eapply (dl_dup _ 4 2); [lia|vm_compute; reflexivity|]. apply dl_nil.
+  - vm_compute. split; reflexivity.
+Qed.
+Print Assumptions C11_pools_exact_nonvacuous.
